@@ -42,7 +42,12 @@
 (*  - (name, form, version) combinations the class tables do not allow, and *)
 (*    the DWARF3 data4/data8 ambiguity of DW_AT_data_member_location;       *)
 (*  - sequential enumeration of a block that contains raw gaps;             *)
-(*  - sums start+length that overflow the address size (not generated).     *)
+(*  - sums start+length that overflow the address size (not generated);     *)
+(*  - enumeration over a file that has both section generations, and        *)
+(*    LocationListsPair.iter_CUs (documented as unsupported; asserting the   *)
+(*    latter was a false alarm of an early version of the driver);          *)
+(*  - address sizes of a list block / unit that differ from the file-wide   *)
+(*    default address size (the quantifier has one address size per file).  *)
 (***************************************************************************)
 EXTENDS DwarfForms, TLC, Json, CSV, IOUtils
 
@@ -559,6 +564,7 @@ SecView(s, ly, g0) ==
    lists |-> [n \in 1..Len(keys) |-> EmitList(s, ly, keys, n, g0)],
    blocks |-> [k \in 1..Len(ly) |->
                  [off |-> ly[k].off, ul |-> ly[k].ul, is64 |-> s.blocks[k].fmt = 64, oc |-> s.blocks[k].oc, toff |-> ly[k].toff,
+                  oal |-> ly[k].off + ILS(s.blocks[k].fmt), ver |-> 5, asz |-> s.asz, seg |-> 0,
                   rel |-> ly[k].rel, tiled |-> Tiled(s.blocks[k]),
                   lids |-> LET its == s.blocks[k].items IN
                            Flat([j \in 1..Len(its) |-> IF its[j].t = "list" THEN <<LId(keys, <<k, j, 0>>)>> ELSE <<>>])]],
